@@ -24,7 +24,7 @@ def rt_job(prefix, shape, slen=2, alen=2, tier='quick', trunc=False):
                unwindset=['cop_serialize_value:%d' % depth, 'cop_deserialize_value:%d' % depth, 'cop_deserialize_value_at:%d' % depth, 'cop_serialize_value.0:%d' % (alen + 2), 'cop_deserialize_value.0:%d' % (alen + 2), 'cop_deserialize_value_at.0:%d' % (alen + 2),
                           'vm_release:3', 'release_array.0:%d' % (alen + 6), 'vm_release.0:%d' % 8, 'release_hashmap.0:1', 'release_hashmap.1:1', 'release_struct.0:1', 'release_struct.1:1', 'release_union.0:1', 'release_tuple.0:1', 'release_closure.0:1',
                           'fnv1a.0:%d' % (slen + 2), 'vm_string_new.0:%d' % (alen + 3), 'memcmp.0:%d' % (slen + 2), 'same:4', 'same.0:%d' % (slen + 3), 'same.1:%d' % (alen + 3)],
-               flags=['--slice-formula'], timeout=600 if tier == 'thorough' else 300, group='cop_codec_roundtrip', must_witness=['round trip done'],
+               flags=['--slice-formula'], timeout=1200, group='cop_codec_roundtrip', must_witness=['round trip done'],
                replay_sources=SRC + ['src/nanoisa/isa.c'],
                desc={'value_shape': shape, 'string_len': slen, 'array_len': alen, 'symbolic': 'all payload bits/bytes, buffer size 0..64, buffer fill, truncation length'})
 
@@ -39,7 +39,7 @@ def dec_job(prefix, tag0, size, etag=None, tag1=None, tier='quick', count=None, 
     nm = '%s_codec_dec_%s%s%s_sz%d' % (prefix, str(tag0).lower(), ('_e' + etag.lower()) if etag else '', (('_t' + tag1.lower()) if tag1 else '') + (('_c%x' % count) if count is not None else '') + (('_u' + tag2.lower()) if tag2 else ''), size)
     return Job(name=nm, harness='cop_codec.c', sources=SRC, defines=d, unwind=size + 4,
                unwindset=['cop_deserialize_value:4', 'cop_deserialize_value.0:%d' % (size + 2), 'cop_deserialize_value_at:4', 'cop_deserialize_value_at.0:%d' % (size + 2), 'vm_release:4', 'release_array.0:%d' % (size + 2), 'vm_release.0:%d' % 8, 'release_hashmap.0:1', 'release_hashmap.1:1', 'release_struct.0:1', 'release_struct.1:1', 'release_union.0:1', 'release_tuple.0:1', 'release_closure.0:1', 'fnv1a.0:%d' % (size + 2), 'vm_string_new.0:%d' % (size + 2), 'memcmp.0:%d' % (size + 2)],
-               flags=['--slice-formula'], timeout=600 if tier == 'thorough' else 300, group='cop_decoder_hostile',
+               flags=['--slice-formula'], timeout=1200, group='cop_decoder_hostile',
                desc={'first_tag': str(tag0), 'array_elem_tag': etag, 'first_element_tag': tag1, 'buffer_bytes': size,
                      'symbolic': 'every byte except the fixed tag bytes (lengths, counts, payload)'})
 
@@ -80,7 +80,7 @@ def fault_job(prefix, ncalls=1, tier='quick'):
     d = {'NCALLS': ncalls}
     return Job(name='%s_copfault_%dcall' % (prefix, ncalls), harness='cop_fault.c', sources=['src/nanovm/heap.c', 'src/nanovm/value.c'], defines=d, unwind=10,
                unwindset=['cop_deserialize_value_at:3', 'cop_serialize_value:2', 'vm_release:2', 'harness.1:26', 'harness.0:%d' % (ncalls + 1)],
-               remove_bodies=['vm_ffi_call', 'cop_deserialize_value'], flags=['--slice-formula'], timeout=900 if tier == 'thorough' else 420, mem_gb=14,
+               remove_bodies=['vm_ffi_call', 'cop_deserialize_value'], flags=['--slice-formula'], timeout=1500, mem_gb=14,
                replay='none', must_witness=['shutdown done'], group='cop_fault_schedule',
                desc={'external_calls': ncalls, 'symbolic': 'result of every read/write/waitpid/fork/pipe (error, EOF, short count, arbitrary bytes), i.e. every fault schedule and every reply; argument value; import index',
                      'stubs': 'in-process vm_ffi_call and the value decoder return arbitrary results (decoder verified separately)'})
